@@ -13,8 +13,8 @@ RULE = ("histories on DynGraph(edge_removal=False) / DynDiGraph(edge_removal=Fal
         "pair/order/instant in the window; all C02 queries follow that presence; the stream has exactly one '+' per "
         "pair at its first appearance and no '-'; snapshot ids == instants of accepted adds. distinct = distinct "
         "(canonical model state incl. global maximum, last op kind).")
-MIN = {"quick": {"has_interaction(u,v,t)": 100000, "stream:plus==run-starts": 10000, "temporal_snapshots_ids": 10000,
-                 "degree(t)": 5000},
+MIN = {"quick": {"has_interaction(u,v,t)": 100000, "stream:plus==run-starts": 4000, "temporal_snapshots_ids": 4000,
+                 "degree(t)": 2000},
        "thorough": {"has_interaction(u,v,t)": 2000000, "stream:plus==run-starts": 200000,
                     "temporal_snapshots_ids": 200000, "degree(t)": 100000}}
 
